@@ -157,6 +157,13 @@ fn bounded_scan_orphans_exact_and_cleanup() {
     std::fs::remove_file(casdir.join(h_lost.relative_path())).unwrap();
     std::fs::write(casdir.join(h_bad.relative_path()), b"same length bytes!").unwrap();
     let leftover = dir.path().join("staging").join("leftover.tmp"); std::fs::write(&leftover, b"partial").unwrap();
+    // a shard directory of a referenced blob that is a symlink to a directory elsewhere is still a directory
+    let shard = casdir.join(h_single.relative_path()).parent().unwrap().to_path_buf();
+    if !shard.starts_with(op.parent().unwrap()) && !op.parent().unwrap().starts_with(&shard) {
+        let elsewhere = dir.path().join("moved-shard");
+        std::fs::rename(&shard, &elsewhere).unwrap();
+        std::os::unix::fs::symlink(&elsewhere, &shard).unwrap();
+    }
     let c2 = Config { scan_orphans_on_startup: true, verify_blob_integrity: true, fail_on_integrity_errors: false, ..Config::default() };
     let (cas, stats) = crate::Cas::<String>::open_with_recover(dir.path(), c2).unwrap();
     let stats = stats.unwrap();
